@@ -1,11 +1,10 @@
 """Generators for grammars with bound names, classes, `where`, `|>`, `<|`, data-dependent
 counts and parameterised rules/classes (C05, C06, C08, C10, C11, C19, C20 build on it).
 
-Scope discipline (DESIGN 4/C05 domain restriction + known finding F24): a name is only *read*
-where "innermost enclosing binding" and "most recent binding in this rule invocation"
-coincide.  Concretely: inside one rule/class body no name that is in scope is rebound,
-except by a `let` whose body is the tail of the enclosing body (so the outer value is never
-read again)."""
+Scope discipline: lexical.  Names in scope may be shadowed by inner lets anywhere, and the
+outer value is read again afterwards (this was excluded while finding F24 - an inner binding
+overwriting the outer one - was open; it has been repaired, together with F30: a let's name is
+not bound inside its own binding expression)."""
 from hypothesis import strategies as st
 from . import peg
 
@@ -215,7 +214,8 @@ def rexpr(draw, depth, scope, ctx, tail=True, pyscope=None):
         kinds += ['call', 'call', 'call']
     k = draw(st.sampled_from(kinds))
     if k == 'let':
-        shadow = tail and scope and draw(st.integers(0, 4)) == 0
+        # shadowing anywhere - the outer value is read again afterwards (known finding F24 until fixed)
+        shadow = scope and draw(st.integers(0, 3 if tail else 5)) == 0
         if shadow:
             name = draw(st.sampled_from(sorted(scope)))
         else:
@@ -423,8 +423,9 @@ def family_rules(draw, idx, ctx):
                                         ('call', 'Tkw', [('lit', 'a'), ('ref', x)], []),
                                         ('call', 'Tkw', [('seq', [('lit', 'a'), ('call', 'Tval', [('ref', x)], [])]), ('py', '1')], [])]))
         if draw(st.booleans()):
-            # (the binding expression never mentions the let's own name: known finding F30)
-            bind = draw(st.sampled_from([('lit', 'a'), ('lit', 'b'), ('rx', 'a+'), ('rx', '[ab]'), ('lit', 'ab')]))
+            # (the binding expression may mention the let's own name - then it means the rule;
+            # that was finding F30 until it was fixed)
+            bind = t()
             return [('rule', name, None, ('let', x, bind, ('choice', [('let', x, ('lit', 'Q'), ('lit', 'a')), ref_use])))]
         return [('rule', tn, [x], ('choice', [('let', x, ('lit', 'Q'), ('lit', 'a')),
                                               ('seq', [('ref', x), draw(st.sampled_from([
